@@ -19,7 +19,7 @@ ASSUMPTIONS = ["whole-program statement decided by translation validation per ge
 
 
 def run(ctx):
-    r = asmrun.check(ctx["seed"], 1500 if ctx["thorough"] else 120)
+    r = asmrun.check(ctx["seed"], 6000 if ctx["thorough"] else 120)
     r["distinct_nontrivial"] = r["distinct"]
     r["rule"] = ("generated terminating programs (straight-line, branches of every form, loops, calls, data statements incl. negative / >255 "
                  "values and strings with escapes, half with debugging ops) x --big-stack; each is assembled by the real CLI and executed on "
